@@ -4,11 +4,12 @@ from ..qcheck import mk_case, run_cases
 from ..common import dec_val
 
 MODULE = "Genql.Properties.C05"
-LEAN_TARGETS = [MODULE, "Genql.Properties.Pipeline"]
+LEAN_TARGETS = [MODULE, "Genql.Properties.Pipeline", "Genql.Properties.C05Model"]
 THEOREMS = ["Genql.C05." + t for t in [
     "lessKeys_eq_lessK", "less_irrefl", "less_trans", "less_incomp_trans", "lessK_swo", "nulls_last",
     "sort_perm", "sort_sorted", "window_exact", "window_never_fails"]] + \
-    ["Genql.Pipeline." + t for t in ["select_pipeline", "select_filter_project", "select_distinct"]]
+    ["Genql.Pipeline." + t for t in ["select_pipeline", "select_filter_project", "select_distinct"]] + \
+    ["Genql.C05." + t for t in ["keyedLess_eq", "keyedLess_swo", "sortRows_perm", "sortRows_sorted"]]
 TRUSTED = ["Go sort.Slice returns a permutation without inversions for a strict weak order (it is not stable: tie order "
            "is never compared)", "sqlparser"]
 RULE = ("random tables (0-10 rows) x key lists of 1-3 keys (ties, both directions; NULL keys only with a single key) compared by "
@@ -109,7 +110,9 @@ LEVEL_TEXT = ("Lean theorems: the sort.go comparator is a strict weak order on r
               "transitive incomparability; NULL last for a single key in both directions); the model sort is a permutation and "
               "sorted w.r.t. it; the LIMIT/OFFSET arithmetic of exec() equals (rows.drop m).take n for all lengths, offsets and "
               "limits and never fails. Stage order for the executable model (select_pipeline): a flat SELECT returns "
-              "window(sort(dedup(project(filter rows)))) - each stage applied to the whole output of the previous one. "
+              "window(sort(dedup(project(filter rows)))) - each stage applied to the whole output of the previous one; and the "
+              "sort stage the driver runs (sortRows: keys read once per row, insertion sort by lessKeys) is a permutation without "
+              "inversions w.r.t. the sort.go comparator (sortRows_perm, sortRows_sorted). "
               "Correspondence by key-tuple sequence + exhaustive small windows.")
 LEVEL_NOTE = ("Trusted: sort.Slice sorts correctly given a strict weak order (unstable; ties not compared). NULL placement is claimed "
               "for a single sort key only, as in the property.")
